@@ -660,3 +660,20 @@ package sam
 //@   loop 0 invariant @own cap(refs) == 0 || (fresh(refs) && !sameBacking(refs, bh.refs))
 //@   loop 0 invariant @list forall k in 0..len(refs) :: refs[k] != nil
 //@   ensures[C07] @refs result == nil ==> (refsA(bh) && refsB(bh) && refsC(bh))
+
+// Record.LessByCoordinate (C18): coordinate order is the order of the
+// references in the header (their ids), then position, with records without a
+// reference last - the order SAM calls "coordinate" and the one a merged
+// stream has to be in. Both records are taken to belong to one header.
+//@ spec func refRank(x *Reference) int = ite(x == nil, 2147483648, int(x.id))
+//@ func Record.LessByCoordinate
+//@   mode int
+//@   props C18
+//@   requires r != nil && other != nil
+//@   requires r.Ref != nil ==> r.Ref.id >= 0
+//@   requires other.Ref != nil ==> other.Ref.id >= 0
+//@   requires (r.Ref != nil && other.Ref != nil) ==> ((r.Ref.id == other.Ref.id) == (r.Ref == other.Ref) && (r.Ref.name == other.Ref.name) == (r.Ref == other.Ref))
+//@   requires (r.Ref != nil ==> r.Ref.name != "*") && (other.Ref != nil ==> other.Ref.name != "*")
+//@   ensures[C18] @headerorder (r.Ref != nil && other.Ref != nil) ==>
+//@       (result == (refRank(r.Ref) < refRank(other.Ref) || (refRank(r.Ref) == refRank(other.Ref) && r.Pos < other.Pos)))
+//@   ensures[C18] @unplacedlast (r.Ref == nil && other.Ref != nil) ==> !result
